@@ -9,6 +9,7 @@ REPO="${ORB_REPO:-/repo}"
 if [ ! -x bin/orbcheck ] || [ -n "$(find checker -name '*.go' -newer bin/orbcheck -not -path '*/vendor/*' -print -quit 2>/dev/null)" ]; then
   (cd checker && GOFLAGS=-mod=vendor go build -o ../bin/orbcheck .) || { echo "cannot build orbcheck" >&2; exit 2; }
 fi
+if [ "$1" = "build" ]; then exit 0; fi
 if [ "$1" = "replay" ]; then
   exec bin/orbcheck replay "$2" "$REPO"
 fi
